@@ -60,6 +60,7 @@ type VC struct {
 	localObjs  map[*Term]*localObj // objects allocated by the function under verification that have not escaped
 	localOrder []*Term
 	escWhy     string
+	guardedFns map[string]bool
 	locksafe   bool // accesses to fields declared guarded need the protecting lock
 	nooverflow bool // signed additions, subtractions and multiplications must stay within the machine range
 	heldBy     map[*Term][]Val
